@@ -7,20 +7,20 @@ CLAIMED = {
    note="The generated declarations are a small language sufficient for emit/diagnostic outcomes; with a cache, diagnostics are compared as presence only (the cached path reports a placeholder).", ref="DESIGN.md §3 C12"),
 
  "C01": dict(cat="exploration", tech="deterministic simulation: worlds built by the real builder under seeded schedules, compared with a reference model of each module's dependencies (from the generator's structured description) and a closure check over followed edges, redirects and the loader's request log",
-   text="(A) for every loaded module with a structured description the recorded dependency map equals the model's under the resolver and graph kind; (B) the graph is exactly reachable-and-closed along the edges the kind and options follow, every loader request has an entry or redirect and every redirect is recorded. Sampled by seed over import forms x media types x schemes x kinds x options; orphans left behind by an importer that turned into an error are a listed finding.",
+   text="(A) for every loaded module with a structured description the recorded dependency map equals the model's under the resolver and graph kind; (B) the graph is exactly reachable-and-closed along the edges the kind and options follow, every loader request has an entry or redirect and every redirect is recorded; (C) what the world serves as a module is a module entry (root defaults also through explicit redirects; plainly imported script modules are modules unless unparsable). Sampled by seed over import forms x media types x schemes x kinds x options; orphans left behind by an importer that turned into an error are a listed finding.",
    note="The model never parses source text; URL joining is delegated to deno_graph::resolve_import. Same-attribute proviso enforced by the generator (source-phase imports only for targets not imported otherwise; no @ts-types on dynamic imports).", ref="DESIGN.md §3 C01"),
  "C13": dict(cat="exploration", tech="deterministic simulation: differential between four renderings of one simulated registry (no embedded info, moduleGraph2, round-tripped moduleGraph2, moduleGraph1) crossed with per-file cache states and seeded completion orders of the deferred content loads",
    text="The graph built through the manifest shortcut must equal the graph built by parsing the same package sources (strictly for moduleGraph2, on everything but the recomputed @deno-types range for moduleGraph1); every ModuleInfo a run produces is round-tripped through JSON. Sampled by seed.",
    note="Embedded information is produced by the real analyser from sources that parse; the value space of ModuleInfo is the one the generated sources reach.", ref="DESIGN.md §3 C13"),
 
  "C05": dict(cat="exploration", tech="deterministic simulation: online monitor over the Loader and Locker seam histories under seeded schedules, with tampered bytes in the cache and remote tiers, plus a record-then-verify history (second build with the lockfile the first wrote)",
-   text="Every loader request and every locker call of a build is checked against the monitor rules (checksum presented, retry discipline, rejected content never admitted, checksummed redirects rejected, new checksums recorded exactly once with the SHA-256 of the served bytes, lockfile entries never overwritten), then the unchanged world is built again with the lockfile just written. Sampled by seed over lockfile contents x tampering x load paths.",
+   text="Every loader request and every locker call of a build is checked against the monitor rules (checksum presented, retry discipline, rejected content never admitted, checksummed redirects rejected, new checksums recorded exactly once with the SHA-256 of the served bytes, every newly delivered version manifest of the last pass handed to the lockfile, lockfile entries never overwritten), then the unchanged world is built again with the lockfile just written. Sampled by seed over lockfile contents x tampering x load paths.",
    note="The simulated loader is honest (verifies the presented checksum against the bytes it returns); vendored manifests (lockfileChecksum) are not verified, as in the CLI. The cached-version probe is exempt from the presentation rule.", ref="DESIGN.md §3 C05"),
  "C06": dict(cat="exploration", tech="deterministic simulation: history monitor over Reporter::on_resolve events against a five-tier selection reference, registry states enumerated systematically through the simulated registry and the real builder",
    text="A bounded family of registry states (63 version subsets x yanked patterns x dates x 8 requirements x cutoff x exclusion = 36,288 states; fully in thorough, strided in quick) plus seeded multi-requirement / lockfile-seeded / cached / stale-metadata worlds; every resolution event and the final package table, yanked set and not-found errors are compared with the reference.",
    note="deno_semver's matching and ordering are trusted; the reference uses the metadata body delivered to the build before each event.", ref="DESIGN.md §3 C06"),
  "C07": dict(cat="exploration", tech="deterministic simulation: generated registries served by the simulated loader under seeded schedules; registry model compared with redirects, package table, per-package dependency sets and URL<->nv conversion",
-   text="For generated registries (name-prefix collisions, pre-release versions, string and map exports, cross-package and https imports) every resolved jsr: specifier, unknown-export error, package_exports, packages_with_deps and URL attribution is compared with the registry model. Sampled by seed.",
+   text="For generated registries (name-prefix collisions, pre-release versions, string and map exports, cross-package and https imports) every resolved jsr: specifier, unknown-export error, package_exports, packages_with_deps and URL attribution (conversion round trip, look-alike URLs and version segments, and the checksum presented for every registry file coming from the manifest of the version its URL names) is compared with the registry model. Sampled by seed.",
    note="Version selection itself is C06's subject; per-package dependencies are bounded below by loaded modules and above by all files of the package.", ref="DESIGN.md §3 C07"),
 
  "C17": dict(cat="exploration", tech="deterministic simulation: two-run relation prune_types(build All) vs build CodeOnly, each run under its own seeded schedule and hash seed",
@@ -33,12 +33,12 @@ CLAIMED = {
    text="Histories (partition builds, idempotent rebuild, edit one module then reload it) are compared with at-once / from-scratch builds of the same (edited) world. Sampled by seed; deviations caused by first-visitor context and visit-order-dependent jsr unification are listed findings.",
    note="Partition equality ignores which importer is named as referrer; reload oracle applies when the edited module is in the graph.", ref="DESIGN.md §3 C19"),
  "C20": dict(cat="exploration", tech="deterministic simulation with content faults at the loader seam (torn / truncated / bit-flipped / invalid byte sequences, charset labels) and an independent reference decoder over the seam's byte log",
-   text="Every text module admitted to the graph must hold exactly the reference decoding of the bytes the seam logged, unknown charset labels must become error entries, original bytes must be absent or byte-equal to the served bytes, size must equal the text length. Sampled by seed over encodings x labels x media x origin x registry content-load path.",
+   text="Every text module admitted to the graph must hold exactly the reference decoding of the bytes the seam logged, unknown charset labels must become error entries, original bytes must be absent or byte-equal to the served bytes, size must equal the text length. Sampled by seed over encodings x labels x media x origin x registry content-load path, plus a systematic torn-read family (sample x encoding x BOM x label x truncation offset 0..63, strided in quick, complete in thorough).",
    note="Reference decoder is std-only (WHATWG semantics restated for UTF-8/UTF-16/windows-1252).", ref="DESIGN.md §3 C20"),
 
  "C02": dict(cat="exploration", tech="deterministic simulation: graphs built by the real builder under seeded schedules from worlds with placed failures; validation verdict compared with a declarative reachable-failure set over all walk options",
    text="On every graph the simulator produces (failures placed behind static, dynamic, type-only, types-dependency edges and redirect chains), for all 36 walk-option combinations and 4 root subsets validate() must be Err exactly when the reference reachable-failure set is non-empty and must return a member of it. The verdict side is exact per graph; the population of graphs is sampled by seed.",
-   note="The reference shares no code with the iterators but restates their edge-selection and resolution-policy rules; a world-level verdict oracle (independent of the graph's own records) is part of C01's model when claimed.", ref="DESIGN.md §3 C02"),
+   note="The reference shares no code with the iterators; edge selection follows the walk options, the import-policy errors and the treatment of missing modules under follow_dynamic are stated from the property text (a literal file: URL is a text that parses as one; a visited missing module is reported at least once); a world-level verdict oracle (independent of the graph's own records) is part of C01's model when claimed.", ref="DESIGN.md §3 C02"),
  "C14": dict(cat="exploration", tech="deterministic simulation: systematic redirect family (chains, cycles, lockfile-seeded, implicit) served by the simulated loader under seeded schedules; lookups compared with a reference walk",
    text="All members of a bounded redirect family (chain length 0..13 x end kind x max_redirects x lockfile mode; cycles 1..12 x tail 0..3; implicit redirects) plus seeded worlds are built and every lookup API is compared with a reference walk for every root, dependency target and redirect source. The family is enumerated completely; seeded worlds are sampled.",
    note="Reference = follow the graph's redirect entries with a seen-set and no hop limit, entries first.", ref="DESIGN.md §3 C14"),
@@ -47,10 +47,10 @@ CLAIMED = {
    note="The walk is synchronous; simulation contributes graphs with error slots, redirect entries, external assets, types-only substitutions, dynamic branches that valid-input generators do not produce.", ref="DESIGN.md §3 C15"),
 
  "C03": dict(cat="fault_enumeration", tech="deterministic simulation with fault injection: a fault of every kind at every request the build issues (first-order sweep), sampled multi-fault and second-order plans, seeded schedules",
-   text="For small generated base worlds (plain URL and JSR registry) every request identity the fault-free build issues is faulted with every applicable fault kind, under the baseline schedule and a drawn one; seeded cases add multi-fault and second-order plans. Oracles: no panic, termination (scheduler step bound + operation bound), no unfinished entry, requests accounted for, serialisation Ok, hard failures become error entries with an importing referrer, successful cache-busting retry is invisible, locality of everything independent of the fault. Exhaustive only per base world and first order; the population of base worlds is sampled.",
+   text="For small generated base worlds (plain URL and JSR registry) every request identity the fault-free build issues is faulted with every applicable fault kind, under the baseline schedule and a drawn one; seeded cases add multi-fault and second-order plans. Oracles: no panic, termination (scheduler step bound + operation bound), no unfinished entry, requests accounted for, serialisation Ok, hard failures become error entries with an importing referrer, every non-root error entry carries a referrer, every redirect of the graph was made by the loader / lockfile / a jsr resolution, roots are requested with the dynamic flag the build was started with (also after a restart), npm dependency-graph failures of dynamic-only imports become error entries, successful cache-busting retry is invisible, locality of everything independent of the fault. Exhaustive only per base world and first order; the population of base worlds is sampled.",
    note="Trusts the simulated seams to honour the documented embedder contracts; response faults only (every request is answered); locality asserted only where no transitive importer is affected.", ref="DESIGN.md §3 C03"),
  "C04": dict(cat="exploration", tech="deterministic simulation: differential over seeded schedules (completion order, suspension points, executor mode, spurious wakes) and hasher seeds against a baseline schedule",
-   text="Every drawn schedule and hash seed must give the same canonical observation (graph JSON, slots, error entries with referrers, packages, lockfile writes) as the baseline schedule on the same world and options. Seeded search, not enumeration: evidence counts distinct (world, event-order) pairs.",
+   text="Every drawn schedule and hash seed must give the same canonical observation (graph JSON, slots, error entries with referrers, packages, lockfile writes) as the baseline schedule on the same world and options; for systematic tiny worlds (<= 4 modules) the whole scheduler choice tree is enumerated depth-first up to a leaf budget. Otherwise seeded search: evidence counts distinct (world, event-order) pairs and how many worlds were enumerated completely.",
    note="Loader answers are a function of request identity and the cache tier is frozen, so the environment is the same across schedules; hash keys are controlled through getrandom interposition.", ref="DESIGN.md §3 C04"),
 }
 NA_FAMILY = {
